@@ -126,24 +126,41 @@ def contrasting_configs(enc: dict) -> List[dict]:
             dict(plain, provides={'sts': 'NONE', 'mts': 'ALL'}, requires={'sts': 'ALL', 'mts': 'NONE'},
                  origin=other_origin),
             dict(plain, provides={'sts': 'ALL', 'mts': 'NONE'}, requires={'sts': 'NONE', 'mts': 'ALL'}),
-            dict(enc, **swap)]
+            dict(enc, **swap),
+            # last: the same shell with the other facilities origin (outcome() edits the
+            # Configuration object of the last warm-up in place)
+            dict(enc, origin=other_origin)]
 
 
 def outcome(enc: dict, doc: Any, fc=None, warmups: Optional[List[dict]] = None) -> Dict[str, Any]:
     """{'files': [(name, contents, hash)...]} or {'exc': classification}.  `warmups` are
     configurations built first in the same process from shared PortSelect objects and one
-    shared Builder - a history that must not influence the result."""
+    shared Builder - a history that must not influence the result.  The last warm-up is built
+    from a Configuration object that is then edited in place into the configuration asked for
+    (a script that generates several shells from one configuration object)."""
     try:
         fc = fc if fc is not None else parse_doc(doc)
         if warmups:
+            import dataclasses  # pylint: disable=import-outside-toplevel
             from dznpy.adv_shell import Builder  # pylint: disable=import-outside-toplevel
             pool, builder = {}, Builder()
-            for warm in warmups:
+            for warm in warmups[:-1]:
                 try:
                     build_files(warm, fc, builder=builder, pool=pool)
                 except Exception:  # pylint: disable=broad-except
                     pass
-            return {'files': build_files(enc, fc, builder=builder, pool=pool)}
+            cfg = make_configuration(warmups[-1], fc, pool=pool)
+            try:
+                with common.quiet():
+                    builder.build(cfg)
+            except Exception:  # pylint: disable=broad-except
+                pass
+            wanted = make_configuration(enc, fc, pool=pool)
+            for fld in dataclasses.fields(wanted):
+                setattr(cfg, fld.name, getattr(wanted, fld.name))
+            with common.quiet():
+                result = builder.build(cfg)
+            return {'files': [(gc.filename, gc.contents, gc.hash) for gc in result.files]}
         return {'files': build_files(enc, fc)}
     except Exception as exc:  # pylint: disable=broad-except
         return {'exc': common.classify_exception(exc)}
